@@ -29,12 +29,13 @@ class SoftwareEosRepulseManager:
 
     # pylint: disable-msg=too-many-arguments
     def __init__(self, machine: "MachineController", enable_switch: SwitchRuleSettings, eos_switch: SwitchRuleSettings,
-                 driver: DriverSettings, repulse_settings: EosRuleSettings):
+                 driver: DriverSettings, repulse_settings: EosRuleSettings, coil: Driver):
         """Initialize software eos repulse manager."""
         self.machine = machine
         self.enable_switch = enable_switch
         self.eos_switch = eos_switch
         self.driver = driver
+        self.coil = coil
         self.repulse_settings = repulse_settings
         self._button_is_active = False
         self._is_eos_closed_long_enough = False
@@ -69,7 +70,7 @@ class SoftwareEosRepulseManager:
     def _button_inactive(self, **kwargs):
         del kwargs
         self._button_is_active = False
-        self.driver.hw_driver.disable()
+        self.coil.disable()
 
     def _eos_closed_long_enough(self, **kwargs):
         del kwargs
@@ -82,10 +83,14 @@ class SoftwareEosRepulseManager:
 
         self._is_eos_closed_long_enough = False
 
+        # go through the coil device so that its limits and its max_hold_duration watchdog apply
         if self.driver.hold_settings:
-            self.driver.hw_driver.enable(self.driver.pulse_settings, self.driver.hold_settings)
+            self.coil.enable(pulse_ms=self.driver.pulse_settings.duration,
+                             pulse_power=self.driver.pulse_settings.power,
+                             hold_power=self.driver.hold_settings.power)
         else:
-            self.driver.hw_driver.pulse(self.driver.pulse_settings)
+            self.coil.pulse(pulse_ms=self.driver.pulse_settings.duration,
+                            pulse_power=self.driver.pulse_settings.power)
 
 
 class PlatformController(MpfController):
@@ -125,7 +130,7 @@ class PlatformController(MpfController):
 
     # pylint: disable-msg=too-many-arguments
     def _get_repulse_settings(self, eos_settings: Optional[EosRuleSettings], enable_switch, eos_switch,
-                              driver_settings, platform) -> Optional[RepulseSettings]:
+                              driver_settings, platform, coil: Driver) -> Optional[RepulseSettings]:
         """Return repulse settings for rule."""
         if eos_settings:
             repulse_settings = RepulseSettings(
@@ -135,7 +140,7 @@ class PlatformController(MpfController):
             if repulse_settings and repulse_settings.enable_repulse and not platform.features["hardware_eos_repulse"]:
                 # Platform does not support EOS repulse in hardware -> emulate it in software
                 software_eos_handler = SoftwareEosRepulseManager(self.machine, enable_switch, eos_switch,
-                                                                 driver_settings, repulse_settings)
+                                                                 driver_settings, repulse_settings, coil)
                 return None, software_eos_handler
 
             return repulse_settings, None
@@ -365,7 +370,7 @@ class PlatformController(MpfController):
         disable_settings = self._get_configured_switch(eos_switch)
         driver_settings = self._get_configured_driver_no_hold(driver, pulse_setting)
         repulse_settings, software_eos_handler = self._get_repulse_settings(
-            eos_settings, enable_switch, eos_switch, driver_settings, platform)
+            eos_settings, enable_switch, eos_switch, driver_settings, platform, driver.driver)
 
         platform.set_pulse_on_hit_and_release_and_disable_rule(
             enable_settings, disable_settings, driver_settings, repulse_settings)
@@ -422,7 +427,7 @@ class PlatformController(MpfController):
         disable_settings = self._get_configured_switch(eos_switch)
         driver_settings = self._get_configured_driver_with_hold(driver, pulse_setting, hold_settings)
         repulse_settings, software_eos_handler = self._get_repulse_settings(
-            eos_settings, enable_switch, eos_switch, driver_settings, platform)
+            eos_settings, enable_switch, eos_switch, driver_settings, platform, driver.driver)
 
         platform.set_pulse_on_hit_and_enable_and_release_and_disable_rule(
             enable_settings, disable_settings, driver_settings, repulse_settings)
